@@ -800,6 +800,18 @@ char *search_include_paths(char *filename) {
   return NULL;
 }
 
+// Returns the index of the include directory a file was found in, or
+// -1 if the file does not live in one of them.
+static int include_dir_index(char *path) {
+  for (int i = 0; i < include_paths.len; i++) {
+    char *dir = include_paths.data[i];
+    int len = strlen(dir);
+    if (!strncmp(path, dir, len) && path[len] == '/')
+      return i;
+  }
+  return -1;
+}
+
 static char *search_include_next(char *filename) {
   for (; include_next_idx < include_paths.len; include_next_idx++) {
     char *path = format("%s/%s", include_paths.data[include_next_idx], filename);
@@ -996,6 +1008,12 @@ static Token *preprocess2(Token *tok) {
     if (equal(tok, "include_next")) {
       bool ignore;
       char *filename = read_include_filename(&tok, tok->next, &ignore);
+
+      // The search continues after the directory of the file that
+      // contains the directive, whatever was included in between.
+      int idx = include_dir_index(start->file->name);
+      if (idx >= 0)
+        include_next_idx = idx + 1;
       char *path = search_include_next(filename);
       tok = include_file(tok, path ? path : filename, start->next->next);
       continue;
